@@ -97,4 +97,53 @@ SegmentSet(X0, Y0, SX, SY) ==
 (* ------------------------------------------------------------------------ *)
 CoinK0(m, sA, sB) == (m.c * sA + m.off - sB) % 360
 CoinMinDist(m, sA, sB, p0) == Abs(Norm180(p0[2] - m.c * p0[1] - CoinK0(m, sA, sB)))
+
+(* ------------------------------------------------------------------------ *)
+(* Segments cut from ONE circle (coincident circles).  Intersect.hpp:        *)
+(* segmode is "an indicator equal to zero if the segments intersect", the    *)
+(* result is "the intersection point if the segments intersect, otherwise    *)
+(* the intersection point closest to the midpoints of the two segments", and  *)
+(* c = +-1 where the geodesics lie on top of one another.  Two pieces of one   *)
+(* circle intersect when they overlap: then the answer is a common point       *)
+(* INSIDE both pieces (any point of the overlap: the header leaves the choice  *)
+(* open) and segmode = 0.  Otherwise the answer is a point of a coincidence    *)
+(* line at the minimal L1 distance from the midpoints (again a whole set).     *)
+(* Pieces that only touch in an end point fall under SegEdgeFree.              *)
+(* All quantities doubled (midpoints are half integers): the coincidence       *)
+(* lines are  Y = c X + K,  K = 2 k0 + 720 j.                                  *)
+(* ------------------------------------------------------------------------ *)
+IMax(a, b) == IF a >= b THEN a ELSE b
+IMin(a, b) == IF a <= b THEN a ELSE b
+CoinKs(m, sA, sB) == {2 * CoinK0(m, sA, sB) + 720 * j : j \in -2..2}
+\* the part <<lo, hi>> (in X) of the line Y = c X + K that lies in the rectangle [0, SX] x [0, SY]; empty when lo > hi
+OvIv(c, K, SX, SY) == IF c = 1 THEN <<IMax(0, -K), IMin(SX, SY - K)>> ELSE <<IMax(0, K - SY), IMin(SX, K)>>
+Overlap(c, Ks, SX, SY) == \E K \in Ks : OvIv(c, K, SX, SY)[1] < OvIv(c, K, SX, SY)[2]
+Touch(c, Ks, SX, SY) == \E K \in Ks : OvIv(c, K, SX, SY)[1] = OvIv(c, K, SX, SY)[2]
+OnCoin(p, c, Ks) == (p[2] - c * p[1]) \in Ks
+CoinDist(mid, c, Ks) == LET D == {Abs(mid[2] - c * mid[1] - K) : K \in Ks} IN CHOOSE d \in D : \A e \in D : d <= e
+\* is <<p, segmode>> an admissible answer for the pieces [0, SX], [0, SY] ?
+SegCoinOK(p, segmode, c, Ks, SX, SY) ==
+  LET mid == <<SX \div 2, SY \div 2>> IN
+  /\ OnCoin(p, c, Ks)
+  /\ segmode \in SegModes(p, SX, SY)
+  /\ IF Overlap(c, Ks, SX, SY) THEN InBoth(p, SX, SY)
+     ELSE L1(p, mid) = CoinDist(mid, c, Ks)
+\* the admissible answers on the doubled integer lattice (for the model invariants): the points of the coincidence lines inside
+\* the rectangle when the pieces overlap, otherwise those at the minimal distance D from the midpoints (they lie within D of it)
+SegCoinPts(c, Ks, SX, SY) ==
+  LET mid == <<SX \div 2, SY \div 2>>
+      D == CoinDist(mid, c, Ks)
+  IN IF Overlap(c, Ks, SX, SY)
+     THEN {p \in {<<x, c * x + K>> : x \in 0..SX, K \in Ks} : InBoth(p, SX, SY)}
+     ELSE {p \in {<<x, c * x + K>> : x \in (mid[1] - D)..(mid[1] + D), K \in Ks} : L1(p, mid) = D}
+SegCoinSet(c, Ks, SX, SY) == UNION {{<<p, sm>> : sm \in SegModes(p, SX, SY)} : p \in SegCoinPts(c, Ks, SX, SY)}
+
+(* ------------------------------------------------------------------------ *)
+(* Next on coincident lines (both start at one point: y = c x + 360 j).  The   *)
+(* header only says that the answer "minimizes Dist(p) (excluding p =          *)
+(* [0,0])" and that c = +-1 where the lines lie on top of one another: the      *)
+(* answer is a common point, not the origin, and carries the right c.           *)
+(* ------------------------------------------------------------------------ *)
+\* lin = 2 (y - c x) of the answer (the place along the line need not be a lattice position: on an ellipsoid it is a conjugate point)
+NextCoinOK(lin, atOrigin, c, mc) == c = mc /\ lin % 720 = 0 /\ ~atOrigin
 =============================================================================
